@@ -378,6 +378,12 @@ func (s *Sim) Run() *Verdict {
 				s.fail(v)
 				return v
 			}
+			// A fault injected by OnStep (e.g. a cancellation) may have woken
+			// blocked goroutines: let them reach their next scheduling point.
+			synctest.Wait()
+			if v := s.verdict.Load(); v != nil {
+				return v
+			}
 		}
 		// Collect the ready set.
 		s.mu.Lock()
@@ -585,4 +591,40 @@ func StartWatchdog(d time.Duration) {
 			last = now
 		}
 	}()
+}
+
+// SelfID returns the simulated goroutine id of the caller ("" outside a
+// simulation).
+func SelfID() string {
+	s := cur
+	if s == nil {
+		return ""
+	}
+	if g := s.self(); g != nil {
+		return g.ID
+	}
+	return ""
+}
+
+// CurStep returns the current scheduler step of the active simulation.
+func CurStep() int {
+	if s := cur; s != nil {
+		return s.Step
+	}
+	return 0
+}
+
+// LiveDescendants returns the ids of unfinished goroutines spawned (directly
+// or indirectly) by goroutine id.
+func (s *Sim) LiveDescendants(id string) []string {
+	s.mu.Lock()
+	defer s.mu.Unlock()
+	var ids []string
+	for _, g := range s.all {
+		if g.state != stDone && strings.HasPrefix(g.ID, id+".") {
+			ids = append(ids, g.ID+"@"+g.site)
+		}
+	}
+	sort.Strings(ids)
+	return ids
 }
